@@ -82,7 +82,7 @@ func kauriProp(c kauriCase) common.Result {
 	drain()
 	g := hotstuff.GetGenesis()
 	mk := func(tag string) *hotstuff.Block {
-		return hotstuff.NewBlock(g.Hash(), kit.GenesisQC(), &clientpb.Batch{Commands: []*clientpb.Command{{ClientID: 7, SequenceNumber: 1, Data: []byte(tag)}}}, 1, positions[0])
+		return kit.NewBlock(g.Hash(), kit.GenesisQC(), &clientpb.Batch{Commands: []*clientpb.Command{{ClientID: 7, SequenceNumber: 1, Data: []byte(tag)}}}, 1, positions[0])
 	}
 	b, other := mk("b"), mk("other")
 	bc.Store(b)
@@ -127,6 +127,10 @@ func kauriProp(c kauriCase) common.Result {
 				return &r
 			}
 			if err := verifier.Auth.VerifyQuorumCert(qc); err != nil {
+				if kit.QuirkQC(verifier, qc) {
+					r := common.Fail(kit.KnownBLS, "the emitted certificate is rejected at replica %d (%v) although its signature satisfies the verification equation in other arrangements\n%s", verifier.ID, err, desc)
+					return &r
+				}
 				r := common.Fail("kauri-qc-does-not-verify", "the emitted certificate (signers %s) does not verify at replica %d: %v\n%s", hotstuff.IDSetToString(qc.Signature().Participants()), verifier.ID, err, desc)
 				return &r
 			}
@@ -149,6 +153,10 @@ func kauriProp(c kauriCase) common.Result {
 				return &r
 			}
 			if err := verifier.Auth.Verify(cm.QC, b.ToBytes()); err != nil {
+				if kit.QuirkSig(verifier.Cfg, verifier.Base, cm.QC, b.ToBytes()) {
+					r := common.Fail(kit.KnownBLS, "the aggregate sent to the parent is rejected at replica %d (%v) although it satisfies the verification equation in other arrangements\n%s", verifier.ID, err, desc)
+					return &r
+				}
 				r := common.Fail("kauri-contribution-does-not-verify", "the aggregate sent to the parent (signers %s) does not verify: %v\n%s", hotstuff.IDSetToString(cm.QC.Participants()), err, desc)
 				return &r
 			}
@@ -218,6 +226,9 @@ func kauriProp(c kauriCase) common.Result {
 			valid := op.Bad == ""
 			if !valid {
 				hostile++
+			}
+			if valid && c.Scheme == "bls12" && kit.QuirkSig(cfg, me.Base, sig, msgBytes) {
+				return common.Fail(kit.KnownBLS, "the tree node's scheme rejects a valid BLS contribution although its signature satisfies the verification equation in other arrangements\n%s", desc)
 			}
 			if valid && !timerFired {
 				for s := range set {
